@@ -44,7 +44,7 @@ RULE = (
     "2^33..2^46 bytes (within the format's limits), mapping tables and allocated units at file offsets beyond 2^32 bytes "
     "(and 2^32 sectors where the format can express it), a few described units, and small requests at those extreme "
     "offsets. Three oracles on a SparseFile that counts bytes read: (1) content equals the model; (2) bytes read by open+reads "
-    "<= 3*M + 4*(len + 2*max(align, unit)) per request + 64 KiB, M = all mapping metadata the builder wrote; (3) metamorphic: "
+    "<= M + 2*(len + 2*align) per request (4*(len + 2*unit) where a whole compressed unit must be fetched) + 64 KiB, M = all mapping metadata the builder wrote; (3) metamorphic: "
     "the same image with 2 000-5 000 additional allocated units outside the requested ranges must read the same bytes with "
     "io_large <= io_small + max(64 KiB, io_small/4) and must never touch a byte of the added units. Non-trivial = the added "
     "data is >= 100x (M + requested bytes)... counted when at least one touched structure lies beyond 2^32."
@@ -382,9 +382,15 @@ def io_unit(spec):
 
 
 def io_budget(spec, meta):
+    """All mapping metadata once (a lazy reader needs less; an eager one may load all of it), a small multiple of the
+    buffer-aligned request (a whole compressed unit where the format forces it), and 64 KiB of slack."""
     m = meta["metadata_bytes"]
-    per = sum(4 * (n + 2 * max(ALIGN, io_unit(spec))) for _, n in spec["requests"])
-    return 3 * m + per + (64 << 10)
+    u = io_unit(spec)
+    if u:
+        per = sum(4 * (n + 2 * max(ALIGN, u)) for _, n in spec["requests"])
+    else:
+        per = sum(2 * (n + 2 * ALIGN) for _, n in spec["requests"])
+    return m + per + (64 << 10)
 
 
 def run_once(spec, im, out, tag, budget_bytes=None, forbid=None):
